@@ -189,6 +189,8 @@ def _ascii(prog, rep):
                     conds.add(("other", D(a[1])))
             nxt = tr.next[wspk]
             okn = nxt == isp or nxt == ("bin", "Eq", SP, ch)
+            if not okn and nxt[0] == "bool" and ("sp", nxt[1]) in conds:
+                okn = True       # the constant the path's own test of `ch == ' '` gives
             r8.check(okn, "ws-update", "in_whitespace' = (ch == ' ') on every path", D(nxt),
                      "the whitespace state becomes %s, expected ch == ' '" % D(nxt), site=site_of_block(cb, tr.path[-2]))
             if tr.kind == "exit":
